@@ -46,6 +46,7 @@ func c09DrawPeer(t *rapid.T, l string, idx int, g rsGlobal, kinds []int) rsPeer 
 		p.AS = rapid.SampledFrom([]uint32{65001, 65002, 64512, 4200000001}).Draw(t, l+"as")
 		p.RemovePrivate = rapid.SampledFrom([]int{0, 0, 1, 2}).Draw(t, l+"rmpriv")
 		p.ReplacePeerAS = rapid.IntRange(0, 4).Draw(t, l+"replace") == 0
+
 	case rsConfed:
 		p.AS = rsConfedMem
 	default:
@@ -147,6 +148,17 @@ func drawC09(t *rapid.T) c09Case {
 		}
 		c.Targets = append(c.Targets, tg)
 	}
+	if c.SrcKind == rsEBGP && !c.Global.Confed && rapid.IntRange(0, 2).Draw(t, "route_server") == 0 {
+		// route-server mode: the source and both targets are route-server clients (external peers); a client is
+		// sent the routes of the other clients unchanged
+		c.Src.RSClient = true
+		for i := range c.Targets {
+			tg := &c.Targets[i]
+			tg.Kind, tg.RSClient, tg.RemovePrivate, tg.ReplacePeerAS = rsEBGP, true, 0, false
+			tg.AS = []uint32{65002, 65003}[i]
+			tg.Secondary = rapid.Bool().Draw(t, fmt.Sprintf("t%dsecondary", i))
+		}
+	}
 	nr := rapid.IntRange(1, 3).Draw(t, "nroutes")
 	for i := 0; i < nr; i++ {
 		v6 := rapid.IntRange(0, 3).Draw(t, fmt.Sprintf("r%dv6", i)) == 0
@@ -234,6 +246,9 @@ func runC09(t *testing.T) func(c c09Case, st *verifkit.Stats) *verifkit.Failure 
 					var want rsAttrs
 					adv, why := false, "route is not usable (own AS / ORIGINATOR_ID)"
 					if usable {
+						if dst.RSClient {
+							in = r.Attrs // unchanged: as received, LOCAL_PREF of the external neighbour included
+						}
 						want, adv, why = rsExport(c.Global, src, in, dst, r.V6)
 					}
 					st.SubEval(1)
@@ -326,7 +341,11 @@ func runC09(t *testing.T) func(c c09Case, st *verifkit.Stats) *verifkit.Failure 
 					var want rsAttrs
 					adv := false
 					if usable {
-						want, adv, _ = rsExport(c.Global, src, in, dst, false)
+						if dst.RSClient {
+							want, adv, _ = rsExport(c.Global, src, r0.Attrs, dst, false)
+						} else {
+							want, adv, _ = rsExport(c.Global, src, in, dst, false)
+						}
 					}
 					missing, extra, wrong := 0, 0, ""
 					for i := 0; i < c.Hosts; i++ {
